@@ -25,8 +25,9 @@ and forming 1 - p move Q by EPS * (M + Q'(p)).  Budget 64 such roundings:
     tol_F = 64 EPS (1 + M / Q'(p))            tol_Q = 64 EPS (M + Q'(p))
 numerical wrappers (OpenTURNS TruncatedDistribution / CompositeDistribution): OpenTURNS documents its solver
 accuracies in its ResourceMap (Distribution-DefaultQuantileEpsilon = 1e-12, Distribution-DefaultCDFEpsilon = 1e-14,
-CompositeDistribution-SolverEpsilon = 1e-14); the tolerance of DESIGN.md, 1e-9 (relative to |x| + sigma for Q), is
-10^3 times that and is added to the rounding budget.
+CompositeDistribution-SolverEpsilon = 1e-14) - absolute numbers, in x for the quantile solver; the tolerance of
+DESIGN.md, 1e-9 = 10^3 times that, is added to the rounding budget both relative and absolute:
+    tol_Q += 1e-9 (1 + |x| + sigma)           tol_F += 1e-9 (1 + 1 / Q'(p))   (an x-error seen through the slope)
 round trips:  |F(Q(p)) - p| <= tol_F + 2 tol_Q / Q'(p),   |Q(F(x)) - x| <= tol_Q + 2 tol_F Q'(p).
 moments: closed forms are a handful of flops with cancellation <= 100 on the alphabet (Weibull: Gamma(1+2/k) -
 Gamma(1+1/k)^2) and library constants tabulated to 13 digits (OpenTURNS' pi / sqrt(6)): relative 1e-11.
@@ -46,6 +47,10 @@ Oracle boundaries
   (``transformation='-x'`` of N(1, 2) reports [-16.3, 14.3]); the statement only asks samples to lie in the
   reported support, so it is asked to contain the range and lie inside the analytic support.  Untransformed
   wrappers must report the analytic support.
+* truncation / transformation are not enumerated on laws with an unbounded density (Beta(0.5, 0.5)):
+  OpenTURNS' composite / truncated algorithms integrate and interpolate the density and lose accuracy at an
+  integrable singularity (cdf off by 6e-7, mean by 4e-8 for '2*x+1' of Beta(0.5, 0.5)) - an accuracy of the
+  interfaced library the statement does not speak about; the plain wrappers of these laws are enumerated.
 * Q(0) and Q(1) are conventions; only F(lower bound) = 0 and F(upper bound) = 1 are checked at the ends.
 * the ``out`` argument of transform_vect / untransform_vect is not part of the statement and not checked.
 * statistics: biased or unbiased standard deviation / variance (but variance == std^2), any of numpy's nine
@@ -182,6 +187,8 @@ def recipes(lib, thorough, img):
             p = L.image("dirac", p0, A, K)
             out.append(dict(cls="OTDiracDistribution", kwargs=dict(variable_value=p["v"]), law=["dirac", p], numeric=False, transformed=False, family="dirac", pidx=i, id=f"dirac#{i}", mods=0))
         for rec in plain:
+            if L.make_law(rec["law"]).unbounded_pdf:
+                continue  # oracle boundary: see the module docstring
             if thorough or rec["pidx"] == 1:
                 out.extend(_modified(rec, m) for m in MODS)
         # exp(N(mu, sigma)) is LogNormal(mu, sigma, 0): parameters of the un-imaged alphabet (exp is not affine)
@@ -227,12 +234,12 @@ def magnitude(law, x):
 
 def tol_F(law, x, p, numeric):
     dq = max(L.dq_dp(law, p), 1e-300)
-    return 64 * EPS * (1 + magnitude(law, x) / dq) + (NUM_TOL if numeric else 0.0)
+    return 64 * EPS * (1 + magnitude(law, x) / dq) + (NUM_TOL * (1 + 1 / dq) if numeric else 0.0)
 
 
 def tol_Q(law, x, p, numeric):
     dq = L.dq_dp(law, p)
-    return 64 * EPS * (magnitude(law, x) + dq) + (NUM_TOL * (abs(x) + law.std) if numeric else 0.0)
+    return 64 * EPS * (magnitude(law, x) + dq) + (NUM_TOL * (1 + abs(x) + law.std) if numeric else 0.0)
 
 
 def tol_mean(law, numeric):
@@ -500,6 +507,24 @@ def random_alphabet(lib, thorough, img):
     return out
 
 
+PAIR_QUICK = ["generic-normal", "dirac#1", "normal#1+T2", "normal#1+A-", "normal#1+AT", "beta#1+TL", "exponential#1+TU", "normal#1+EXP"]
+
+
+def pair_alphabet(lib, thorough, img):
+    """Random variables of the shapes with two random variables (the full product of pairs is taken).
+    thorough: the whole quick alphabet; quick: per family one scalar (vector 1) and the size-2 vector (vectors 2, 3),
+    plus a Dirac, a generic-interface vector and one representative of each modifier."""
+    rvs = random_alphabet(lib, False, img)
+    if thorough:
+        return rvs
+    keep = []
+    for rv in rvs:
+        ids = [c["id"] for c in rv["comps"]]
+        if rv["form"] == "vector" or (rv["form"] == "scalar" and (ids[0].endswith("#1") and "+" not in ids[0] and not ids[0].startswith("generic")) or ids[0] in PAIR_QUICK):
+            keep.append(rv)
+    return keep
+
+
 SHAPES = ["R", "D", "RR", "RD", "DR", "RRD", "RDR", "DRR"]
 RNAMES = ["u", "a"]  # arrival order u, a: differs from the sorted order
 DNAME = "m"
@@ -590,6 +615,10 @@ def exec_space(case):
     def bad(inv, cls, msg, focus=None):
         out.append(({"invariant": inv, "class": cls, "shape": shape, "path": case.get("path", "direct")}, focus or {}, f"space {[(v['name'], v['rv']['id'] if v['kind'] == 'R' else v['det']) for v in case['vars']]} path={case.get('path', 'direct')}: {msg}"))
 
+    def geo(inv, cls, msg, focus=None):
+        # the geometric (use_dist=False) normalization does not depend on the law, the shape or the path
+        out.append(({"invariant": "geometric:" + inv, "class": cls}, focus or {}, f"space {[(v['name'], v['rv']['id'] if v['kind'] == 'R' else v['det']) for v in case['vars']]}: {msg}"))
+
     try:
         ps = build_space(case)
     except Exception as e:
@@ -623,19 +652,20 @@ def exec_space(case):
         sup, rng, mean, std = np.asarray(dist.support), np.asarray(ps.get_range(name)), np.asarray(dist.mean, dtype=float), np.asarray(dist.standard_deviation, dtype=float)
         if not np.array_equal(np.asarray(ps.get_support(name)), sup):
             bad("space-get_support", comps[0][3]["cls"], "get_support differs from the marginal's support")
-        med = [law_of(r[3]).quantile(0.5) for r in comps]
+        # evaluate_cdf wants every uncertain variable: the other components sit at their medians
+        med = {nm: np.array([law_of(r[3]).quantile(0.5) for r in rows if r[1] == nm], dtype=float) for nm in rnames}
         for (k, _, _, rec, c) in comps:
             def F(x, c=c, name=name):
-                v = np.array(med, dtype=float)
-                v[c] = x
-                return float(ps.evaluate_cdf({name: v})[name][c])
+                v = {nm: a.copy() for nm, a in med.items()}
+                v[name][c] = x
+                return float(ps.evaluate_cdf(v)[name][c])
 
             def Q(p, c=c, name=name):
-                v = np.full(len(med), 0.5)
-                v[c] = p
-                return float(ps.evaluate_cdf({name: v}, inverse=True)[name][c])
+                v = {nm: np.full(len(a), 0.5) for nm, a in med.items()}
+                v[name][c] = p
+                return float(ps.evaluate_cdf(v, inverse=True)[name][c])
 
-            for inv, focus, msg in check_marginal(rec, F, Q, mean[c], std[c], sup[c], rng[c], P_GRID):
+            for inv, focus, msg in check_marginal(rec, F, Q, mean[c], std[c], sup[c], rng[c], [P_GRID[(k + c) % len(P_GRID)]]):  # the probes below cover the whole grid
                 bad("evaluate_cdf:" + inv, rec["cls"], f"variable {name}[{c}] = {rec['cls']}(**{rec['kwargs']}): {msg}", focus)
     # ---- probe points ----
     fin = np.isfinite(lb) & np.isfinite(ub)
@@ -748,7 +778,25 @@ def exec_space(case):
         err = np.abs(got - want) > rt * (np.abs(want) + (np.abs(lb0) + 1) / np.abs(fac))
         if err.any():
             i = int(np.argwhere(err.reshape(-1, n).any(axis=0))[0, 0])
-            bad(label, "deterministic" if not israndom[i] else rows[i][3]["cls"], f"component {i} ({rows[i][1]}[{rows[i][4]}] bounds [{lb[i]}, {ub[i]}]): {label} gives {got.reshape(-1, n)[:, i].tolist()} expected {want.reshape(-1, n)[:, i].tolist()} (DesignSpace formula)", {"component": i})
+            geo(label, "deterministic" if not israndom[i] else "random", f"component {i} ({rows[i][1]}[{rows[i][4]}] bounds [{lb[i]}, {ub[i]}]): {label} gives {got.reshape(-1, n)[:, i].tolist()} expected {want.reshape(-1, n)[:, i].tolist()} (DesignSpace formula)", {"component": i})
+    # use_dist=True with minus_lb=False: "for the components of the deterministic variables, use the approach defined
+    # in DesignSpace.normalize_vect with minus_lb" (docstrings of ParameterSpace.normalize_vect / unnormalize_vect);
+    # the random components keep the probability transform.
+    if (~israndom).any() and not ints.any():
+        det = ~israndom
+        for label, call, want in (
+            ("normalize_vect(minus_lb=False,use_dist=True)", lambda: ps.normalize_vect(v, minus_lb=False, use_dist=True), np.where(normable, v / fac, v)),
+            ("unnormalize_vect(minus_lb=False,use_dist=True)", lambda: ps.unnormalize_vect(unit[1], minus_lb=False, use_dist=True), np.where(normable, unit[1] * span, unit[1])),
+        ):
+            try:
+                got = np.asarray(call(), dtype=float)
+            except Exception as e:
+                bad(label + "-raises", "ParameterSpace", f"{type(e).__name__}: {e}")
+                continue
+            err = det & (np.abs(got - want) > rt * (np.abs(want) + (np.abs(lb0) + 1) / np.abs(fac)))
+            if err.any():
+                i = int(np.argwhere(err)[0, 0])
+                geo(label, "deterministic", f"component {i} ({rows[i][1]}[{rows[i][4]}] bounds [{lb[i]}, {ub[i]}]): {label} gives {got[i]!r} expected {want[i]!r} (DesignSpace formula with minus_lb=False)", {"component": i})
     # ---- samples ----
     nr = int(israndom.sum())
     if nr:
@@ -783,12 +831,21 @@ def exec_space(case):
                 bad("transform_vect(samples)-is-evaluate_cdf", "ParameterSpace", f"{ts[:, israndom][0]} vs {want[0]}")
             if ((ts[:, israndom] < 0) | (ts[:, israndom] > 1)).any():
                 bad("transform_vect(samples)-in-unit-cube", "ParameterSpace", f"{ts[0]}")
-        # the uncertain sub-space is the restriction
+        # the uncertain sub-space is the restriction (a deep copy: OpenTURNS objects are copied through a
+        # temporary Study file, ~15 ms each, so OpenTURNS spaces do it on the <= 2-variable direct shapes only)
+        if lib == "OT" and (len(case["vars"]) > 2 or case.get("path", "direct") != "direct"):
+            us_check = False
+        else:
+            us_check = True
         try:
+            if not us_check:
+                raise StopIteration
             us = ps.extract_uncertain_space()
             tu = us.transform_vect(pts[0][israndom])
             if list(us.variable_names) != rnames or not np.array_equal(tu, ps.transform_vect(pts[0])[israndom]):
                 bad("extract_uncertain_space", "ParameterSpace", f"{us.variable_names}: {tu} vs {ps.transform_vect(pts[0])[israndom]}")
+        except StopIteration:
+            pass
         except Exception as e:
             bad("extract_uncertain_space", "ParameterSpace", f"{type(e).__name__}: {e}")
     if nr < n:
@@ -828,11 +885,12 @@ def make_dataset(case):
     return Dataset.from_array(data, variable_names=["x", "y"], variable_names_to_n_components={"x": 1, "y": 2}), {"x": data[:, :1], "y": data[:, 1:]}
 
 
-def _cmp(out, sig, label, got, want_list, rtol, head):
-    """got (dict name -> array) must equal one of the accepted readings."""
+def _cmp(out, sig, label, got, want_list, rtol, head, atol=None):
+    """got (dict name -> array) must equal one of the accepted readings (atol: name -> per-component array)."""
     for name, accepted in want_list.items():
         g = np.asarray(got[name], dtype=float).ravel()
-        ok = any(g.shape == np.ravel(w).shape and np.allclose(g, np.ravel(w), rtol=rtol, atol=rtol) for w in accepted)
+        at = rtol if atol is None else np.ravel(atol[name])
+        ok = any(g.shape == np.ravel(w).shape and bool(np.all((g == np.ravel(w)) | (np.abs(g - np.ravel(w)) <= at + rtol * np.abs(np.ravel(w))))) for w in accepted)
         if not ok:
             out.append(({"invariant": label, **sig}, {"variable": name}, f"{head}: {label}[{name}]={g.tolist()} accepted readings={[np.ravel(w).tolist() for w in accepted]}"))
 
@@ -914,26 +972,35 @@ def exec_stats(case):
             if sel[c].name not in want:
                 out.append(({"invariant": "selection-follows-reported-criteria", **sig, "criterion": case["criterion"], "selection": case["selection"]}, {"variable": name, "component": c}, f"{head}: {name}[{c}] selected {sel[c].name}, criteria {crit} -> {sorted(want)}"))
     laws = {k: [L.make_law(FIT_LAWS[d.name](list(d.value.distribution.getParameter()))) for d in v] for k, v in chosen.items()}
-    rt = 1e-9  # fitted three-parameter laws evaluate through OpenTURNS' generic algorithms (see NUM_TOL)
+    # The fitted three-parameter laws (LogNormal, WeibullMin on data they do not suit) come out with extreme
+    # parameters (|location| ~ 1e4 for data of spread 1): the closed forms then cancel.  Tolerances follow the
+    # conditioning of the reference: the mean is a sum of terms of magnitude mean_mag, the standard deviation has
+    # the condition number std_cond, a quantile is location + scale * z.  rt = NUM_TOL for OpenTURNS' algorithms.
+    rt = NUM_TOL
     ref = lambda f: {k: [np.array([f(w) for w in laws[k]])] for k in names}  # noqa: E731
     own = lambda f: {k: [np.array([f(d.value) for d in chosen[k]])] for k in names}  # noqa: E731
-    _cmp(out, sig, "mean-vs-closed-form-of-fitted-law", st.compute_mean(), ref(lambda w: w.mean), rt, head)
-    _cmp(out, sig, "standard_deviation-vs-closed-form-of-fitted-law", st.compute_standard_deviation(), ref(lambda w: w.std), rt, head)
-    _cmp(out, sig, "variance=std^2", st.compute_variance(), ref(lambda w: w.std**2), rt, head)
-    _cmp(out, sig, "mean-is-distribution-mean", st.compute_mean(), own(lambda d: d.mean), 0, head)
+    a_mean = {k: np.array([rt * w.mean_mag for w in laws[k]]) for k in names}
+    a_std = {k: np.array([(rt + 256 * EPS * w.std_cond) * w.std + 64 * EPS * w.mean_mag for w in laws[k]]) for k in names}
+    got_mean, got_std = st.compute_mean(), st.compute_standard_deviation()
+    _cmp(out, sig, "mean-vs-closed-form-of-fitted-law", got_mean, ref(lambda w: w.mean), 0, head, a_mean)
+    _cmp(out, sig, "standard_deviation-vs-closed-form-of-fitted-law", got_std, ref(lambda w: w.std), 0, head, a_std)
+    _cmp(out, sig, "variance=std^2", st.compute_variance(), {k: [np.asarray(got_std[k]) ** 2] for k in names}, 1e-14, head)
+    _cmp(out, sig, "mean-is-distribution-mean", got_mean, own(lambda d: d.mean), 0, head)
     _cmp(out, sig, "minimum-is-support", st.compute_minimum(), ref(lambda w: w.support[0]), rt, head)
     _cmp(out, sig, "maximum-is-support", st.compute_maximum(), ref(lambda w: w.support[1]), rt, head)
     finite = all(math.isfinite(b) for k in names for w in laws[k] for b in w.support)
     if finite:
         _cmp(out, sig, "range=max-min", st.compute_range(), ref(lambda w: w.support[1] - w.support[0]), rt, head)
     for p in P_GRID:
-        _cmp(out, sig, "quantile-vs-closed-form-of-fitted-law", st.compute_quantile(p), {k: [np.array([w.quantile(p) for w in laws[k]])] for k in names}, rt, head + f" p={p}")
+        a_q = {k: np.array([rt * (w.mean_mag + L.dq_dp(w, p)) for w in laws[k]]) for k in names}
+        _cmp(out, sig, "quantile-vs-closed-form-of-fitted-law", st.compute_quantile(p), {k: [np.array([w.quantile(p) for w in laws[k]])] for k in names}, 0, head + f" p={p}", a_q)
     _cmp(out, sig, "median=quantile(0.5)", st.compute_median(), {k: [st.compute_quantile(0.5)[k]] for k in names}, 0, head)
     th = {k: np.array([w.quantile(0.3) for w in laws[k]]) for k in names}
+    a_p = {k: np.array([rt * (1 + w.mean_mag / max(L.dq_dp(w, 0.3), 1e-300)) for w in laws[k]]) for k in names}
     for greater in (True, False):
-        _cmp(out, sig, "probability-vs-closed-form-of-fitted-law", st.compute_probability(th, greater=greater), {k: [np.full(len(laws[k]), 0.7 if greater else 0.3)] for k in names}, rt, head + f" greater={greater}")
+        _cmp(out, sig, "probability-vs-closed-form-of-fitted-law", st.compute_probability(th, greater=greater), {k: [np.full(len(laws[k]), 0.7 if greater else 0.3)] for k in names}, 0, head + f" greater={greater}", a_p)
     for kf in (1.0, -2.0):
-        _cmp(out, sig, "margin=mean+k*std", st.compute_margin(kf), ref(lambda w: w.mean + kf * w.std), rt, head)
+        _cmp(out, sig, "margin=mean+k*std", st.compute_margin(kf), {k: [np.asarray(got_mean[k]) + kf * np.asarray(got_std[k])] for k in names}, 1e-14, head)
     # BaseStatistics documents compute_moment as "a central moment, ... the expected value of a specified integer
     # power of the deviation from the mean" (and EmpiricalStatistics implements that)
     _cmp(out, sig, "moment-is-central", st.compute_moment(1), ref(lambda w: 0.0), rt, head + " order=1")
@@ -991,9 +1058,9 @@ def cases_space(thorough, img):
             nr = shape.count("R")
             axes = {}
             for k in range(nr):
-                axes[f"r{k}"] = rvs
+                axes[f"r{k}"] = rvs if nr == 1 else pair_alphabet(lib, thorough, img)
             if "D" in shape:
-                axes["det"] = list(dets)
+                axes["det"] = list(dets) if (thorough or nr < 2) else ["b1", "b2"]
             # the construction path multiplies the one-random-variable shapes and, for two random variables,
             # the spaces whose two variables are plain (the paths only touch names and the joint's rebuild)
             for c in product.full(axes):
@@ -1007,7 +1074,7 @@ def cases_space(thorough, img):
                 if nr == 0 and lib == "OT":
                     continue  # no random variable: the library is irrelevant
                 mods = sum(v["rv"]["mods"] for v in vs if v["kind"] == "R")
-                paths = PATHS if (nr <= 1 or mods == 0 or thorough) and nr >= 1 else PATHS[:1]
+                paths = PATHS if (nr == 1 or (nr == 2 and mods == 0)) else PATHS[:1]
                 for path in paths:
                     out.append({"part": "space", "lib": lib, "vars": vs, "path": path})
     out.sort(key=lambda c: (len(c["vars"]), sum(v["rv"]["mods"] + len(v["rv"]["comps"]) for v in c["vars"] if v["kind"] == "R"), PATHS.index(c["path"])))
@@ -1070,8 +1137,7 @@ def check_case(case, tally):
 
 
 def _brief(case):
-    c = copy.deepcopy(case)
-    return c
+    return case
 
 
 def run(ctx):
